@@ -419,6 +419,20 @@ fn gen_malformed(out: &mut Vec<String>) {
         "backend.callback 8 | infallible 1 | write 1",
         "backend.callback 8 | fallible zz | write 1",
         "backend.iter 8 | fallible 1ff,x,_ | read_s | read_s | read_s | read_s",
+        // numbers of 2^128 and above, and signs, are unparseable on both sides
+        "backend.callback 8 | fallible 100000000000000000000000000000000 | write 1",
+        "backend.callback 8 | fallible ffffffffffffffffffffffffffffffff | write 1 | raw",
+        "backend.vec 8 | data 1 | write 100000000000000000000000000000000 | raw",
+        "backend.vec 8 | data 100000000000000000000000000000001 | raw",
+        "backend.vec 8 | data 1 | extend_from_iter 2,100000000000000000000000000000000 | raw",
+        "backend.vec 8 | data 1 | write ffffffffffffffffffffffffffffffff | raw",
+        "backend.vec 8 | data 1 | write +5 | raw",
+        "backend.vec +8 | data 1 | raw",
+        "backend.vec 100000000000000000000000000000008 | data 1 | raw",
+        "backend.iter 8 | fallible 1,100000000000000000000000000000000 | read_s",
+        "backend.cursor-owned 8 | at 1,2 +1 | raw",
+        "backend.vec 8 | data 1 | seek +0 | raw",
+        "backend.vec 8 | data 0000000000000000000000000000000000000001 | write 0000000000000000000000000000000000000002 | raw",
     ] {
         out.push(l.to_string());
     }
